@@ -990,6 +990,11 @@ def deep_descs(prop, tier):
                 out.append(dict(func=func, n=n, edges=star, form="vars", deep="sparse"))
         out.append(dict(func="active_vertices_not_adjacent_and_not_segmenting", grid=[8, 13], as_grid=True, form="vars", deep="sparse"))
         out.append(dict(func="active_vertices_not_adjacent", grid=[8, 13], as_grid=True, form="vars", deep="sparse"))
+        # 33 / 65 vertices (one more than a power of two: block-wise summation in an encoder or a back end), both forms
+        for g in ((1, 33), (3, 11)) + (((33, 1), (5, 13)) if big else ()):
+            for as_grid in (True, False):
+                if as_grid or g[0] == 1 or big:
+                    out.append(dict(func="active_vertices_not_adjacent_and_not_segmenting", grid=list(g), as_grid=as_grid, form="vars", deep="sparse"))
         for g in ((4, 6), (6, 4), (5, 7)) + (((4, 7), (7, 5), (3, 8), (8, 3), (6, 9), (9, 6), (5, 8)) if big else ()):
             out.append(dict(func="active_vertices_not_adjacent_and_not_segmenting", grid=list(g), as_grid=True, form="vars", deep=True))
             if g[0] * g[1] <= 40:
